@@ -28,7 +28,7 @@ class C12(FCheck):
     PAIRS = {"quick": 0, "thorough": 0}
     kinds = ("errno",)
     needs_probe = True
-    technique = "deterministic simulation of an API probe linked against libxcp: every StatusUpdate is a system call ordered by the supervisor against the data calls; seeded schedules plus sampled single faults"
+    technique = "deterministic simulation of an API probe linked against libxcp: every StatusUpdate is a system call ordered by the supervisor against the data calls; seeded schedules (preemption at system calls and, by single-stepping, after atomic instructions inside send()) plus sampled single faults"
     rule = ("case = tree (small and multi-block files, nested dirs, links) x driver x workers x block size x updater {recording client-supplied "
             "updater, ChannelUpdater drained by the client, NoopUpdater} x mode {copy() in a thread as documented, copy() inline}; each case "
             "runs fault-free and with sampled single errno faults; oracle on the global event order: sum(Size) = total length of selected "
